@@ -50,7 +50,13 @@ def witness(ctx, inst):
     steps = []
     for head, body in tlc.counterexample(r):
         steps.append({"step": head, "state": " ".join(body.split())})
-    return steps
+    # the witness, as an action stream, judged by the full Executor specification
+    from . import witness as wmod
+    try:
+        checked = wmod.validate(ctx, inst, steps)
+    except Exception as e:          # an aid only: the verdict (a cost comparison) does not depend on it
+        checked = {"witness_stream": None, "note": f"witness could not be re-validated: {e!r}"[:300]}
+    return {"tlc_counterexample": steps, **checked}
 
 
 def tables(ctx, claims, nmax, smax=None):
